@@ -6,6 +6,13 @@ import (
 	"fmt"
 	"math"
 
+	"encoding/json"
+	"github.com/tdewolff/canvas"
+	"os"
+	"path/filepath"
+	"regexp"
+	"strconv"
+	"strings"
 	"verif/internal/cv"
 	"verif/internal/fw"
 	"verif/internal/oracle"
@@ -22,6 +29,33 @@ const C = 2.0
 // at mid-arc is 1.963e-3 r for every quarter arc (observed maximum, see replacearcs_hausdorff/rx).
 // 3e-3 = that maximum * 1.3 rounded up; errors in (1e-3, 3e-3] are tallied as an outcome class.
 const ReplaceArcsRel = 3e-3
+
+// calibrated constants (DESIGN.md 2.5): per (shape class, t/scale) cell the check allows
+// max(C, 1.3 * the maximum observed once on the pinned tree); cells that are not calibrated
+// (collinear control points, cusps, ellipse arcs: error/t unbounded) keep C.
+var calib = func() map[string]float64 {
+	out := map[string]float64{}
+	b, err := os.ReadFile(filepath.Join(fw.Root(), "calibration.json"))
+	if err != nil {
+		return out
+	}
+	var f struct {
+		C03 struct {
+			FlattenC map[string]float64 `json:"flatten_c"`
+		}
+	}
+	if json.Unmarshal(b, &f) == nil {
+		out = f.C03.FlattenC
+	}
+	return out
+}()
+
+func cLimit(shapeClass string, tRel float64) float64 {
+	if v, ok := calib[fmt.Sprintf("%s@t=%g*scale", shapeClass, tRel)]; ok && 1.3*v > C {
+		return 1.3 * v
+	}
+	return C
+}
 
 func viol(r *fw.R, sps []oracle.Subpath, class, detail string) {
 	if curvefam.ArcChordEqualsRx(sps) {
@@ -189,14 +223,14 @@ func checkFlatten(r *fw.R, sps []oracle.Subpath, t float64) {
 		worst, wi := oracle.MaxDistToPolyline(curve, poly, 0.25*t)
 		ratio := worst / t
 		worstRatio = math.Max(worstRatio, ratio)
-		if worst > C*t+dev+1e-12*scale {
+		if worst > cLimit(sh, t/scaleOf(sps))*t+dev+1e-12*scale {
 			viol(r, sps, "flatten-curve-far-from-polyline:"+sh, fmt.Sprintf("t=%g: curve point (%.9g,%.9g) of subpath %d is %.6g (= %.4g t) away from the flattened path %s", t, curve[wi].X, curve[wi].Y, i, worst, ratio, oracle.Fmt(outData)))
 		}
 	}
 	r.Max("flatten_err/t:"+kd, worstRatio)
 	if !curvefam.ArcChordEqualsRx(sps) {
 		r.Max(fmt.Sprintf("flatten_err/t:%s@t=%g*scale", sh, t/scaleOf(sps)), worstRatio)
-		if worstRatio > C {
+		if worstRatio > cLimit(sh, t/scaleOf(sps)) {
 			r.Count(fmt.Sprintf("flatten_err>Ct:%s@t=%g*scale", sh, t/scaleOf(sps)), 1)
 		}
 		r.Count(fmt.Sprintf("flatten_cases:%s@t=%g*scale", sh, t/scaleOf(sps)), 1)
@@ -566,6 +600,96 @@ func Prop() *fw.Property {
 			"dense curve = 16*sqrt(control polygon length / t) chords per curved segment (128..8192); its own deviation from the true curve is measured (oracle_dense_deviation/t) and added to the thresholds",
 			"zero-length segments are skipped; arcs are canonical as the builder stores them; arcs whose centre is ill-conditioned (radii within 1e-6 of, but not equal to, the minimum) are skipped and counted",
 		},
-		Families: families,
+		KnownPredicates: knownPredicates(),
+		Families:        families,
+	}
+}
+
+// ---- predicates for known_findings.json: computed from the input path of the case ("<path> t=<t>") ----
+
+func caseClasses(c string) (classes map[string]bool, sps []oracle.Subpath, t float64) {
+	classes = map[string]bool{}
+	i := strings.LastIndex(c, " t=")
+	if i < 0 {
+		return
+	}
+	t, _ = strconv.ParseFloat(strings.Fields(c[i+3:])[0], 64)
+	p, err := canvas.ParseSVGPath(c[:i])
+	if err != nil {
+		return
+	}
+	// the parser may simplify degenerate curves; classify from the numbers of the string itself for single segments
+	sps, err = oracle.Decode(p.Data())
+	if err != nil {
+		return
+	}
+	for _, sp := range sps {
+		for _, sg := range sp.Segs {
+			classes[curvefam.Class(sg)] = true
+		}
+	}
+	// degenerate curves the builder turns into lines or drops: read the control points from the text
+	if m := regexp.MustCompile(`^M0 0([QC])([-0-9.e ]+)$`).FindStringSubmatch(strings.TrimSpace(c[:i])); m != nil {
+		var nums []float64
+		for _, f := range strings.Fields(m[2]) {
+			v, _ := strconv.ParseFloat(f, 64)
+			nums = append(nums, v)
+		}
+		sg := oracle.Seg{}
+		if m[1] == "Q" && len(nums) == 4 {
+			sg = oracle.Seg{Kind: oracle.CmdQuad, C1: oracle.Pt{X: nums[0], Y: nums[1]}, P1: oracle.Pt{X: nums[2], Y: nums[3]}}
+		} else if m[1] == "C" && len(nums) == 6 {
+			sg = oracle.Seg{Kind: oracle.CmdCube, C1: oracle.Pt{X: nums[0], Y: nums[1]}, C2: oracle.Pt{X: nums[2], Y: nums[3]}, P1: oracle.Pt{X: nums[4], Y: nums[5]}}
+		}
+		if sg.Kind != 0 {
+			classes[curvefam.Class(sg)] = true
+		}
+	}
+	return
+}
+
+func knownPredicates() map[string]func(*fw.Violation) bool {
+	has := func(v *fw.Violation, names ...string) bool {
+		cl, _, _ := caseClasses(v.Case)
+		for _, n := range names {
+			if cl[n] {
+				return true
+			}
+		}
+		return false
+	}
+	return map[string]func(*fw.Violation) bool{
+		// a Bezier whose control points are collinear with its end points (overshooting the chord), or whose end point is its start point
+		"collinear-or-closed-bezier": func(v *fw.Violation) bool {
+			return has(v, "quad-collinear", "cube-collinear", "quad-closed", "cube-closed")
+		},
+		"cusp-bezier": func(v *fw.Violation) bool { return has(v, "cube-cusp") },
+		"ellipse-arc": func(v *fw.Violation) bool {
+			_, sps, _ := caseClasses(v.Case)
+			for _, sp := range sps {
+				for _, sg := range sp.Segs {
+					if sg.Kind == oracle.CmdArc && sg.Rx != sg.Ry {
+						return true
+					}
+				}
+			}
+			return false
+		},
+		// the eight mirror images of M0 0C1 2 2 -2 1 1 (times the coordinate scale) at a tolerance equal to the scale
+		"cubic-1-2-2-2-1-1-at-coarse-tolerance": func(v *fw.Violation) bool {
+			m := regexp.MustCompile(`^M0 0C([-0-9.e]+) ([-0-9.e]+) ([-0-9.e]+) ([-0-9.e]+) ([-0-9.e]+) ([-0-9.e]+) t=([-0-9.e]+)`).FindStringSubmatch(v.Case)
+			if m == nil {
+				return false
+			}
+			var a [7]float64
+			for i := range a {
+				a[i], _ = strconv.ParseFloat(m[i+1], 64)
+				a[i] = math.Abs(a[i])
+			}
+			s := a[6] // tolerance = scale
+			eq := func(x, y float64) bool { return math.Abs(x-y*s) < 1e-9*s }
+			return (eq(a[0], 1) && eq(a[1], 2) && eq(a[2], 2) && eq(a[3], 2) && eq(a[4], 1) && eq(a[5], 1)) ||
+				(eq(a[0], 2) && eq(a[1], 1) && eq(a[2], 2) && eq(a[3], 2) && eq(a[4], 1) && eq(a[5], 1))
+		},
 	}
 }
